@@ -144,6 +144,22 @@ func init() {
 				close(start)
 				wg.Wait()
 			}
+			// phase 3: the backend connections are lost and re-opened (every node restarts, one after the other); the
+			// clients' keyspaces must still be in force on the new connections
+			for _, ip := range e.IPs {
+				e.C.RestartNode(ip)
+				time.Sleep(150 * time.Millisecond) // reconnect delays are <= 10 ms
+			}
+			for _, sc := range clients {
+				wg.Add(1)
+				go func(sc *sessClient) {
+					defer wg.Done()
+					for k := 0; k < 6; k++ {
+						sc.data()
+					}
+				}(sc)
+			}
+			wg.Wait()
 			t.Quiesce(300*time.Millisecond, 3*time.Second)
 			t.Emit("Quiet")
 			t.Stop()
